@@ -34,14 +34,15 @@ static bool not_serializable_root(const PDU* p) { return dynamic_cast<const PPI*
 static bool ip_root_needs_routing(const PDU* p) { const IP* ip = dynamic_cast<const IP*>(p); return ip && (uint32_t)ip->src_addr() == 0; }
 static std::string chain_of(const PDU* p) { std::string s; int n = 0; for (; p && n < 12; p = p->inner_pdu(), ++n) { if (n) s += '/'; s += cls(p); } if (p) s += "/..."; return s; }
 
+static bool g_may_refuse = false;    // set only for packets that exceed a wire-format limit (no serialization exists): a libtins exception is then the right answer
 // returns the serialization (empty on failure)
-static Bytes check_packet(PDU* p, const std::string& origin) {
+static Bytes check_packet(PDU* p, const std::string& origin, bool allow_big = false) {
     cnt("packets_checked");
     u64 expect = 0; for (const PDU* q = p; q; q = q->inner_pdu()) expect += q->header_size() + q->trailer_size();
     u32 sz = p->size();
     std::string chain = chain_of(p);
     if (sz != expect) { violation("size-sum/" + cls(p), "size()=" + std::to_string(sz) + " but the layers' header+trailer sizes add up to " + std::to_string(expect) + " chain=" + chain); }
-    if (expect > 65535 + 64) { cnt("skipped_oversize"); return Bytes(); }
+    if (expect > 65535 + 64 && !allow_big) { cnt("skipped_oversize"); return Bytes(); }
     g_stack.clear(); g_cur_layer.clear();
     Bytes y;
     try { y = p->serialize(); }
@@ -49,6 +50,10 @@ static Bytes check_packet(PDU* p, const std::string& origin) {
         if (not_serializable_root(p)) { cnt("pseudo_header_refused_as_documented"); return Bytes(); }
         violation("serialize-throws:pdu_not_serializable/" + (g_cur_layer.empty() ? cls(p) : g_cur_layer), "serialize() threw pdu_not_serializable for " + origin + " chain=" + chain); return Bytes();
     }
+    catch (const value_too_large& ex) { if (g_may_refuse) { cnt("unrepresentable_packet_refused_at_serialization:" + cls(p)); return Bytes(); }
+        violation("serialize-throws:" + demangle(typeid(ex).name()) + "/" + (g_cur_layer.empty() ? cls(p) : g_cur_layer), std::string("serialize() threw: ") + ex.what() + " for " + origin + " chain=" + chain); return Bytes(); }
+    catch (const exception_base& ex) { if (g_may_refuse) { cnt("unrepresentable_packet_refused_at_serialization:" + cls(p)); return Bytes(); }
+        violation("serialize-throws:" + demangle(typeid(ex).name()) + "/" + (g_cur_layer.empty() ? cls(p) : g_cur_layer), std::string("serialize() threw: ") + ex.what() + " for " + origin + " chain=" + chain); return Bytes(); }
     catch (const std::exception& ex) { violation("serialize-throws:" + demangle(typeid(ex).name()) + "/" + (g_cur_layer.empty() ? cls(p) : g_cur_layer), std::string("serialize() threw: ") + ex.what() + " for " + origin + " chain=" + chain); return Bytes(); }
     catch (...) { violation("serialize-throws:" + current_exception_type() + "/" + g_cur_layer, "serialize() threw for " + origin + " chain=" + chain); return Bytes(); }
     if (not_serializable_root(p)) { violation("pseudo-header-serialized/" + cls(p), "PPI/PKTAP are documented as not serializable but serialize() succeeded"); }
@@ -155,6 +160,37 @@ static void element_shapes(long idx, Rng& r) {
     if (!log.empty()) { check_packet(root.get(), "element-shape " + d + " after edits: " + log); cnt("serializations_after_edit"); }
 }
 
+// ---- containers filled to their limit, then one more addition (accepted or refused): sizes and regions must still agree ----
+static void limit_shapes(long idx, Rng& r) {
+    u32 which = (u32)(idx % 9); std::unique_ptr<PDU> root; std::string d; bool refused = false; PDU* layer = nullptr;
+    auto attempt = [&](const char* what, std::function<void()> f) { try { f(); } catch (const std::exception& e) { refused = true; d += std::string(" [") + what + " refused: " + demangle(typeid(e).name()) + "]"; } };
+    Bytes pay = r.bytes(1 + r.below(24));
+    switch (which) {
+        case 0: { RTP* t = new RTP(); layer = t; u32 n = r.chance(1, 2) ? 65535 : 65535 - r.below(3); d = "RTP with " + std::to_string(n) + " extension words, then +1..3"; for (u32 i = 0; i < n; ++i) t->add_extension_data(i); for (u32 k = 1 + r.below(3); k--;) attempt("add_extension_data", [&] { t->add_extension_data(0xabcdef01); }); root.reset(t); break; }
+        case 1: { RTP* t = new RTP(); layer = t; d = "RTP with 15 CSRC ids, then +1..2"; for (u32 i = 0; i < 15; ++i) t->add_csrc_id(i); for (u32 k = 1 + r.below(2); k--;) attempt("add_csrc_id", [&] { t->add_csrc_id(77); }); if (r.chance(1, 2)) attempt("remove_csrc_id", [&] { t->remove_csrc_id(77); }); root.reset(t); break; }
+        case 2: { TCP* t = new TCP(80, 81); layer = t; d = "TCP options up to the 40-octet space, then more"; for (u32 i = 0; i < 14; ++i) attempt("add_option", [&] { Bytes b = r.bytes(r.below(9)); t->add_option(TCP::option((TCP::OptionTypes)(2 + r.below(30)), b.begin(), b.end())); }); root.reset(new IP("1.2.3.4", "4.3.2.1")); root->inner_pdu(t); break; }
+        case 3: { IP* t = new IP("1.2.3.4", "4.3.2.1"); layer = t; d = "IP options up to the 40-octet space, then more"; for (u32 i = 0; i < 14; ++i) attempt("add_option", [&] { Bytes b = r.bytes(r.below(9)); t->add_option(IP::option(IP::option_identifier((IP::OptionNumber)(2 + r.below(20)), IP::CONTROL, 1), b.begin(), b.end())); }); root.reset(t); break; }
+        case 4: { Dot11Beacon* t = new Dot11Beacon(); layer = t; u32 n = 250 + r.below(12); d = "Dot11 element of " + std::to_string(n) + " octets"; attempt("add_option", [&] { Bytes b = r.bytes(n); t->add_option(Dot11::option((u8)r.below(256), b.begin(), b.end())); }); attempt("ssid", [&] { t->ssid(std::string(n, 'x')); }); root.reset(t); break; }
+        case 5: { DHCP* t = new DHCP(); layer = t; u32 n = 250 + r.below(12); d = "DHCP option of " + std::to_string(n) + " octets"; attempt("add_option", [&] { Bytes b = r.bytes(n); t->add_option(DHCP::option((DHCP::OptionTypes)(1 + r.below(250)), b.begin(), b.end())); }); attempt("domain_name", [&] { t->domain_name(std::string(n, 'y')); }); t->end(); root.reset(t); break; }
+        case 6: { PPPoE* t = new PPPoE(); t->code(0x09); layer = t; u32 n = r.chance(1, 2) ? 65531 - r.below(8) : 60000 + r.below(6000); d = "PPPoE tag of " + std::to_string(n) + " octets + a second tag"; attempt("add_tag", [&] { Bytes b(n, 0x5a); t->add_tag(PPPoE::tag(PPPoE::VENDOR_SPECIFIC, b.begin(), b.end())); }); attempt("service_name", [&] { t->service_name(std::string(r.below(40), 's')); }); root.reset(t); pay.clear(); break; }
+        case 7: { ICMPv6* t = new ICMPv6(ICMPv6::ROUTER_ADVERT); layer = t; u32 n = 2030 + r.below(20); d = "ICMPv6 option of " + std::to_string(n) + " octets (limit 255*8-2)"; attempt("add_option", [&] { Bytes b(n, 0x11); t->add_option(ICMPv6::option((u8)(1 + r.below(30)), b.begin(), b.end())); }); root.reset(new IPv6("::1", "::2")); root->inner_pdu(t); pay.clear(); break; }
+        default: { IPv6* t = new IPv6("::1", "::2"); layer = t; u32 n = 2030 + r.below(24); d = "IPv6 extension header of " + std::to_string(n) + " octets (limit 256*8-2)"; attempt("add_header", [&] { Bytes b(n, 0); t->add_header(IPv6::ext_header(IPv6::DESTINATION_ROUTING_OPTIONS, b.begin(), b.end())); }); root.reset(t); break; }
+    }
+    if (!pay.empty() && layer && !layer->inner_pdu()) layer->inner_pdu(new RawPDU(pay.data(), (u32)pay.size()));
+    describe_case("limit-shape " + d);
+    static const char* nm[] = {"RTP.extension", "RTP.csrc", "TCP.options", "IP.options", "Dot11.element", "DHCP.option", "PPPoE.tag", "ICMPv6.option", "IPv6.ext_header"};
+    cnt(std::string("limit_shapes:") + nm[which]); if (refused) cnt(std::string("limit_shapes_refused:") + nm[which]);
+    sig(mix(fnv(d), (u64)idx));
+    // a refusal by the setter is fine and so is an encoder that refuses at serialization time with a libtins exception... but not one that writes
+    // outside its region or reports a size it does not fill: check_packet decides (option_payload_too_large & co. are legitimate refusals)
+    bool over = false;       // does the packet exceed what its own length fields can express?
+    if (IP* ip = dynamic_cast<IP*>(layer)) over = ip->header_size() > 60;
+    else if (TCP* t = dynamic_cast<TCP*>(layer)) over = t->header_size() > 60;
+    else if (PPPoE* pp = dynamic_cast<PPPoE*>(layer)) { u64 t = 0; for (auto& tg : pp->tags()) t += 4 + tg.data_size(); over = t > 65535; }      // own sum: the 16-bit payload length cannot express more
+    if (over) cnt(std::string("limit_shapes_over_wire_limit:") + nm[which]);
+    g_may_refuse = over; check_packet(root.get(), "limit-shape " + d, true); g_may_refuse = false;
+}
+
 int main(int argc, char** argv) {
     register_all();
     return vf::run(argc, argv, "C02", [&](long idx, Rng& r) {
@@ -162,6 +198,7 @@ int main(int argc, char** argv) {
         struct Fin { ~Fin() { cnt("hook_layer_serializations", g_layers); g_layers = 0; for (auto& t : g_types_seen) cnt("hooked_type:" + t); g_types_seen.clear(); } } fin;
         if (a.mode == "options") { option_shapes(idx, r); return; }
         if (a.mode == "elements") { element_shapes(idx, r); return; }
+        if (a.mode == "limits") { limit_shapes(idx, r); return; }
         if (a.mode == "built") {
             PktGen g(r); int rk = 0; std::unique_ptr<PDU> p(g.packet(&rk));
             describe_case("built: " + g.trace);
